@@ -985,9 +985,19 @@ def new_result():
 
 def replay_path(job):
     """job = (steps incl. the initial state as steps[0], consts, kind, workdir, opts) -> result"""
+    from ZODB.POSException import POSError
     steps, c, kind, workdir, opts = job
-    rp = ConnReplayer(c, kind, workdir, opts)
     res = new_result()
+    res['kind'] = kind
+    res['opts'] = opts
+    try:
+        rp = ConnReplayer(c, kind, workdir, opts)
+    except (POSError, AssertionError, KeyError, AttributeError, TypeError, ValueError, IndexError) as e:
+        # the set-up (open, create the root's value and the pre-committed objects, commit) is real code too
+        shutil.rmtree(workdir, ignore_errors=True)
+        res['mismatch'] = {'step': 0, 'action': 'Init', 'args': [], 'where': 'setup.outcome', 'spec': 'ok',
+                           'impl': '%s: %s' % (type(e).__name__, str(e)[:160]), 'role': '', 'prefix': []}
+        return res
     res['init_state'] = steps[0]['state']
     try:
         try:
@@ -1001,6 +1011,4 @@ def replay_path(job):
         res['calls'] = rp.calls
         rp.close()
     res.pop('init_state')
-    res['kind'] = kind
-    res['opts'] = opts
     return res
